@@ -101,7 +101,7 @@ Definition faithful (ctx : schemas) (defs : list (string * jschema)) : Prop :=
 (* ---------- witnesses of the refuted statements (the findings of checks/c12.py, as terms) ---------- *)
 Definition M0 : smeta := {| m_kind := ""; m_variant := ""; m_identifier := "" |}.
 
-(* a foreign type that refers to itself *)
+(* a foreign type that refers to itself (made GenerateSchema loop forever before the `converted` set) *)
 Definition w_rec_ctx : schemas :=
   [mkSchema "alpha" M0 "" (TBad attrs0 "")
      [("Root", mkObject "Root" [] (TStruct attrs0 [] [mkField "x" [] (TRef attrs0 "beta" "Node") true]) "alpha" "Root")];
